@@ -477,8 +477,11 @@ def c05(run: Run):
     for data, us, kind in inputs:
         ref = run.add("lzma us=%s in=%s" % (us, data.hex()), oracle=no_crash, tag="c05:oneshot:" + kind)
         ks = []
-        if len(data) - 13 <= 9 and len(data) <= 24 and run.tier == "thorough":
-            chs = compositions(len(data))
+        hl = 5 if us.startswith("up:") else 13
+        if run.tier == "thorough" and hl < len(data) <= hl + 11:
+            # header in one piece, then EVERY composition of what follows (<= 1024), plus every
+            # single cut inside the header
+            chs = [[hl] + c for c in compositions(len(data) - hl)] + [[k, len(data) - k] for k in range(1, hl)]
         else:
             chs = chunkings(rng, len(data), per)
         for parts in chs:
